@@ -116,36 +116,111 @@ def run_harness(scratch, crate, features, harness, timeout_s, logdir, extra=()):
     return r
 
 
+def _classify(hid, res, pd, err):
+    """Turn one entry of Kani's --export-json into a result record."""
+    r = {"status": "undecided", "checks": 0, "failed": 0, "covers": 0, "covers_sat": 0, "failed_checks": [],
+         "solver_s": None, "reason": ""}
+    if pd:
+        r["checks"] = pd.get("total_properties", 0)
+        r["failed"] = pd.get("failed", 0)
+        r["covers_sat"] = pd.get("satisfied", 0)
+        r["covers"] = pd.get("satisfied", 0) + pd.get("unsatisfiable", 0)
+        r["undetermined"] = pd.get("undetermined", 0)
+    if res:
+        r["solver_s"] = round(res.get("duration_ms", 0) / 1000.0, 2)
+        for c in res.get("checks", []):
+            if c.get("status") in ("Failure", "Undetermined") and c.get("category") != "cover":
+                loc = c.get("location") or {}
+                r["failed_checks"].append({"desc": c.get("description", ""), "file": loc.get("file", ""),
+                                           "line": int(loc.get("line") or 0), "fn": c.get("function", ""),
+                                           "status": c.get("status"), "category": c.get("category")})
+        st = res.get("status")
+        if st == "Success":
+            r["status"] = "ok"
+        elif st == "Failure":
+            real = [f for f in r["failed_checks"] if f["status"] == "Failure"]
+            tool = [f for f in real if ("unwinding assertion" in f["desc"]) or ("not currently supported" in f["desc"])
+                    or ("unsupported" in f["desc"].lower()) or f.get("category") in ("unwind", "unsupported_construct")]
+            if real and len(tool) == len(real):
+                r["status"] = "undecided"
+                r["reason"] = "tool limit: " + " | ".join(f["desc"] for f in tool[:3])
+            elif real:
+                r["status"] = "failed"
+                r["failed_checks"] = [f for f in real if f not in tool]
+            else:
+                r["status"] = "undecided"
+                r["reason"] = "harness failed without a failed check (%s)" % (err or {}).get("exit_status", "timeout / out of memory?")
+        else:
+            r["reason"] = "status %s" % st
+    else:
+        r["reason"] = "harness produced no result (timeout, memory cap or compile error)"
+    return r
+
+
 def run_many(scratch, jobs, logdir, parallel):
-    """jobs: list of dicts {crate, features, harness, timeout_s, extra}. Returns {harness: result}."""
+    """jobs: list of dicts {crate, features, harness, timeout_s}. One `cargo kani` invocation per (crate, features):
+    the crate is compiled once, harnesses are verified in parallel (-j), results come from --export-json."""
+    import json
     results = {}
-    # warm each (crate, features) once
-    seen = set()
+    os.makedirs(logdir, exist_ok=True)
+    groups = {}
     for j in jobs:
-        key = (j["crate"], tuple(j.get("features") or ()))
-        if key in seen:
-            continue
-        seen.add(key)
-        ok, log, wall = warm(scratch, key[0], list(key[1]))
-        os.makedirs(logdir, exist_ok=True)
-        with open(os.path.join(logdir, "build_%s_%s.log" % (key[0], "_".join(key[1]) or "default")), "w") as fh:
-            fh.write(log)
-        if not ok:
-            for jj in jobs:
-                if (jj["crate"], tuple(jj.get("features") or ())) == key:
-                    results[jj["harness"]] = {
-                        "status": "undecided", "reason": "kani build of %s failed" % key[0], "log_tail": log[-4000:],
-                        "wall_s": round(wall, 1), "failed_checks": [], "checks": 0, "covers": 0, "covers_sat": 0,
-                        "cmd": "cargo kani -p %s --only-codegen" % key[0],
-                    }
-    todo = [j for j in jobs if j["harness"] not in results]
-    with concurrent.futures.ThreadPoolExecutor(max_workers=parallel) as ex:
-        futs = {
-            ex.submit(run_harness, scratch, j["crate"], j.get("features") or [], j["harness"],
-                      j.get("timeout_s", 600), logdir, j.get("extra", ())): j
-            for j in todo
-        }
-        for f in concurrent.futures.as_completed(futs):
-            j = futs[f]
-            results[j["harness"]] = f.result()
+        groups.setdefault((j["crate"], tuple(j.get("features") or ())), []).append(j)
+    for (crate, feats), js in groups.items():
+        tag = "%s_%s" % (crate, "_".join(feats) or "default")
+        jpath = os.path.join(logdir, "kani_%s.json" % tag)
+        if os.path.exists(jpath):
+            os.remove(jpath)
+        hto = max(j.get("timeout_s", 600) for j in js)
+        cmd = ["cargo", "kani", "-p", crate] + KANI_FLAGS + ["-j", str(parallel), "--output-into-files",
+                                                            "--harness-timeout", "%ds" % hto, "--export-json", jpath]
+        if feats:
+            cmd += ["--features", ",".join(feats)]
+        for j in js:
+            cmd += ["--harness", j["harness"]]
+        t0 = time.time()
+        total_to = hto * (1 + len(js) // max(1, parallel)) + 900
+        try:
+            p = subprocess.run(cmd, cwd=scratch.repo, env=_env(scratch.target), stdout=subprocess.PIPE,
+                               stderr=subprocess.STDOUT, text=True, timeout=total_to, preexec_fn=_limit)
+            out = p.stdout
+        except subprocess.TimeoutExpired as e:
+            out = e.stdout.decode("utf-8", "replace") if isinstance(e.stdout, bytes) else (e.stdout or "")
+            subprocess.run(["pkill", "-f", "cbmc"], check=False)
+        wall = time.time() - t0
+        with open(os.path.join(logdir, "kani_%s.log" % tag), "w") as fh:
+            fh.write("$ " + " ".join(cmd) + "\n" + out)
+        data = None
+        if os.path.exists(jpath):
+            try:
+                data = json.load(open(jpath))
+            except Exception:
+                data = None
+        by_id = {}
+        if data:
+            res = {r["harness_id"]: r for r in data.get("verification_results", {}).get("results", [])}
+            pds = {r["harness_id"]: r["property_details"] for r in data.get("property_details", [])}
+            errs = {r["harness_id"]: r for r in data.get("error_details", [])}
+            for hid in set(res) | set(pds):
+                by_id[hid] = _classify(hid, res.get(hid), pds.get(hid), errs.get(hid))
+            # remove this run's intermediate files (disk hygiene); keep the cargo dependency cache
+            od = (data.get("project") or {}).get("output_dir")
+            if od and od.startswith(scratch.target) and not os.environ.get("VERIF_KEEP_SCRATCH"):
+                import shutil
+                shutil.rmtree(od, ignore_errors=True)
+        for j in js:
+            h = j["harness"]
+            match = [hid for hid in by_id if hid == h or hid.endswith("::" + h)]
+            if len(match) == 1:
+                r = by_id[match[0]]
+            elif len(match) > 1:
+                r = {"status": "undecided", "reason": "harness name %s is ambiguous" % h, "failed_checks": [],
+                     "checks": 0, "covers": 0, "covers_sat": 0}
+            else:
+                errs_txt = "\n".join(l for l in out.split("\n") if l.startswith("error"))[:1500]
+                r = {"status": "undecided", "failed_checks": [], "checks": 0, "covers": 0, "covers_sat": 0,
+                     "reason": "no result for harness (build failure, crash or timeout): " + errs_txt}
+            r["wall_s"] = round(wall, 1)
+            r["cmd"] = " ".join(cmd[:cmd.index("-j")] + ["--harness", h])
+            results[h] = r
     return results
